@@ -294,6 +294,19 @@ def rule_ef_fresh(repo, col):
                     'constructor call not found')
     else:
         c = calls[0]
+        from .astutil import local_assignments
+        las = local_assignments(cp)
+
+        def res(e):
+            if isinstance(e, ast.Name) and e.id in las and \
+                    len(las[e.id]) == 1 and las[e.id][0][0] is not None:
+                return las[e.id][0][0]
+            return e
+        import copy as _copy
+        c = _copy.copy(c)
+        c.args = [res(a) for a in c.args]
+        c.keywords = [ast.keyword(arg=k.arg, value=res(k.value))
+                      for k in c.keywords]
         data_fresh = isinstance(c.args[0], ast.Call) and isinstance(
             c.args[0].func, ast.Attribute) and \
             c.args[0].func.attr == 'copy'
